@@ -2,6 +2,7 @@ package sim
 
 import (
 	"errors"
+	"fmt"
 	"net"
 	"sort"
 )
@@ -40,6 +41,10 @@ type Store struct {
 	// as the library's own in-memory store does; the interface does not say who
 	// owns the returned bytes. Not to be combined with snapshots.
 	AliasLoad bool
+	// pristine copies of what was saved, kept with AliasLoad to notice a caller
+	// writing into the bytes Load handed out; Modified lists what was noticed
+	pristine map[uint][]byte
+	Modified []string
 }
 
 // Persistence mirrors mqtt.Persistence.
@@ -110,6 +115,9 @@ func (s *Store) end(op string, key uint, val []byte, fail bool, call int64) {
 func (s *Store) Load(key uint) ([]byte, error) {
 	s.w.Mu.Lock()
 	defer s.w.Mu.Unlock()
+	if s.AliasLoad {
+		s.CheckPristine()
+	}
 	fail, call := s.begin("load", key, nil)
 	var v []byte
 	if !fail {
@@ -228,6 +236,25 @@ func (s *Store) List() ([]uint, error) {
 		return s.Inner.List()
 	}
 	return Keys(s.cur), nil
+}
+
+// CheckPristine compares every stored value with what was saved; Mu held.
+func (s *Store) CheckPristine() {
+	for k, want := range s.pristine {
+		got, ok := s.cur[k]
+		if !ok {
+			delete(s.pristine, k)
+			continue
+		}
+		if string(got) != string(want) {
+			at := 0
+			for at < len(got) && at < len(want) && got[at] == want[at] {
+				at++
+			}
+			s.Modified = append(s.Modified, fmt.Sprintf("record %#x no longer holds what was saved: byte %d is %#02x, saved %#02x (the client wrote into the slice Load returned)", k, at, got[at], want[at]))
+			s.pristine[k] = append([]byte{}, got...)
+		}
+	}
 }
 
 // CurrentLocked returns the content; Mu held.
